@@ -320,7 +320,7 @@ def random_history(rng, schema, pool, length):
             hist.append(('relate', s, t, 77, phrase_s))
         elif k < 0.88:
             hist.append((rng.choice(('relate', 'unrelate')), None, t, r.rel, phrase_s))
-        elif k < 0.90:
+        elif k < 0.97:
             a, b = rng.randrange(len(pool)), rng.randrange(len(pool))
             hist.append(('relate', a, b, r.rel, rng.choice((phrase_s, phrase_t, ''))))
         else:
@@ -343,7 +343,7 @@ def run(ctx):
             ctx.violation(e.key, e.what, case=case)
         return
 
-    cap = 70000 if ctx.tier == 'quick' else 3000000
+    cap = 140000 if ctx.tier == 'quick' else 3000000
     total = 0
     for name, schema in S:
         pool = make_pool(schema, 2)
